@@ -496,7 +496,7 @@ def run_cases(ctx, env, cases, label):
 
 # ---------------------------------------------------------------- part 2 (oracle only): m2m, one-to-one, default prefetching
 
-def part2(ctx, env):
+def part2(ctx, env, history=None):
     Q, I, T, O = env.Q, env.I, env.T, env.O
     w = env.w
     rng = ctx.rng
@@ -523,6 +523,7 @@ def part2(ctx, env):
     def observations(qs, ts):
         """name -> thunk returning a canonical value; `full` thunks only count once the collection is fully loaded"""
         ob = {}
+        qs = qs or {1: None, 2: None, 3: None}; ts = ts or {1: None, 2: None, 3: None}
         for q in (1, 2, 3):
             ob['Q%d.name' % q] = lambda q=q: qs[q].name
             ob['Q%d.items' % q] = lambda q=q: sorted(i.id for i in qs[q].items)
@@ -535,39 +536,49 @@ def part2(ctx, env):
         return ob
     reloads = [lambda: select(i for i in I)[:], lambda: select(q for q in Q)[:], lambda: select(o for o in O)[:], lambda: select(t for t in T)[:],
                lambda: I.select_by_sql('SELECT * FROM I'), lambda: O.select_by_sql('SELECT * FROM O'), lambda: Q.select_by_sql('SELECT * FROM Q')]
-    n = ctx.scale(150, 3000)
-    for case_no in range(n):
+    def gen_script():
+        names = sorted(observations({}, {}))
+        hot = rng.sample(names, rng.choice([2, 3, 4]))
+        script = []
+        for stepno in range(rng.choice([4, 6, 8, 10])):
+            if rng.random() < 0.5:
+                sql, args = wop(); script.append(['w', sql, list(args)])
+            if rng.random() < 0.35: script.append(['reload', rng.randrange(len(reloads))])
+            else: script.append(['read', rng.choice(hot if rng.random() < 0.8 else names)])
+        return script
+
+    def run_script(script, label):
+        """executes a history of writer statements / reloads / reads; the oracle runs on the values read"""
         reset()
         log = []; first = {}
         try:
             with db_session:
                 qs = {q: Q[q] for q in (1, 2, 3)}; ts = {t: T[t] for t in (1, 2, 3)}
                 ob = observations(qs, ts)
-                names = sorted(ob)
-                hot = rng.sample(names, rng.choice([2, 3, 4]))
-                for stepno in range(rng.choice([4, 6, 8, 10])):
-                    if rng.random() < 0.5:
-                        sql, args = wop(); w.execute(sql, args); log.append(['w', sql, list(args)])
-                    if rng.random() < 0.35:
-                        k = rng.randrange(len(reloads)); nonce = next(env.nonce)
+                for act in script:
+                    if act[0] == 'w':
+                        w.execute(act[1], act[2]); log.append(['w', act[1], list(act[2])])
+                    elif act[0] == 'reload':
+                        k = act[1]
                         try:
                             reloads[k](); log.append(['reload', k, 'ok'])
                         except core.UnrepeatableReadError: log.append(['reload', k, 'UnrepeatableReadError'])
                         except Exception as e: log.append(['reload', k, type(e).__name__])
                     else:
-                        name = rng.choice(hot if rng.random() < 0.8 else names)
+                        name = act[1]
+                        base = name.replace('len(', '').replace(')', '')
                         try:
                             v = ob[name](); log.append(['read', name, v])
                         except core.UnrepeatableReadError:
                             log.append(['read', name, 'UnrepeatableReadError']); continue
                         except Exception as e:
                             log.append(['read', name, 'error:' + type(e).__name__])
-                            if name in first:
+                            if ('val', base) in first or ('len', base) in first:
                                 ctx.violation('a repeated read failed with an error other than UnrepeatableReadError', {'history': log},
-                                              observed=type(e).__name__, expected=first[name], key='part2:other-error:' + name.split('.', 1)[1])
+                                              observed=type(e).__name__, expected=first.get(('val', base), first.get(('len', base))),
+                                              key='part2:other-error:' + name.split('.', 1)[1])
                             continue
                         # consistency of len with items of the same collection
-                        base = name.replace('len(', '').replace(')', '')
                         if name != base: v_cmp, key = v, ('len', base)
                         else: v_cmp, key = v, ('val', base)
                         if isinstance(v, list): first.setdefault(('len', base), len(v))
@@ -578,9 +589,22 @@ def part2(ctx, env):
                 rollback()
         except Exception:
             ctx.divergence('part 2: the reader session crashed', {'history': log}, impl=traceback.format_exc()[-500:])
-        ctx.case({'history': log}, nontrivial=len(log) > 3, kind='part2')
+        ctx.case({'history': log}, nontrivial=len(log) > 3, kind=label)
         for e in log:
             if e[0] != 'w': ctx.count('part2:%s:%s' % (e[0], e[2] if isinstance(e[2], str) and (e[2].startswith('Unrep') or e[2].startswith('error')) else 'ok'))
+
+    if history is not None:
+        run_script([a[:3] if a[0] == 'w' else a[:2] for a in history], 'part2-replay')
+    # fixed histories: the column-less side of the one-to-one pair served from the identity map (regression of the defect found
+    # by the thorough tier), both directions of the foreign change, every reload of the other side
+    for rl in (2, 5):
+        run_script([['reload', rl], ['read', 'Q1.one'], ['w', 'UPDATE O SET q = NULL WHERE id = ?', [1]], ['reload', 5 if rl == 2 else 2], ['read', 'Q1.one']], 'part2-fixed')
+        run_script([['reload', rl], ['read', 'Q1.one'], ['w', 'UPDATE O SET q = ? WHERE id = ?', [2, 1]], ['reload', rl], ['read', 'Q1.one'], ['read', 'Q2.one']], 'part2-fixed')
+        run_script([['read', 'Q2.one'], ['w', 'UPDATE O SET q = ? WHERE id = ?', [2, 2]], ['reload', rl], ['read', 'Q2.one']], 'part2-fixed')
+        run_script([['read', 'Q1.one'], ['w', 'UPDATE O SET q = NULL WHERE id = ?', [1]], ['reload', rl], ['read', 'Q1.one']], 'part2-fixed')
+    n = ctx.scale(150, 2000)
+    for case_no in range(n):
+        run_script(gen_script(), 'part2')
 
 
 # ---------------------------------------------------------------- entry points
@@ -589,7 +613,7 @@ def run(ctx, extra=None):
     if not ctx.driver.ok: ctx.note('driver unavailable: correspondence skipped, oracle only')
     env = Env()
     try:
-        if extra: run_cases(ctx, env, [extra], 'replay')
+        if extra and 'steps' in extra: run_cases(ctx, env, [extra], 'replay')
         corpus = os.path.join(ponyutil.ROOT, 'harness', 'corpus', 'C21')
         if os.path.isdir(corpus):
             cs = [json.load(open(os.path.join(corpus, f))) for f in sorted(os.listdir(corpus)) if f.endswith('.json')]
@@ -600,11 +624,11 @@ def run(ctx, extra=None):
         nobs = 12 * 10 * 7       # observation kinds x change kinds x reload paths (sampled in the quick tier)
         if not ctx.thorough: tcs = ctx.rng.sample(tcs[:nobs], 200) + tcs[nobs:]
         run_cases(ctx, env, tcs, 'template')
-        n = ctx.scale(1000, 40000)
+        n = ctx.scale(1000, 20000)
         for chunk in range(0, n, 1000):
             run_cases(ctx, env, [gen_case(ctx.rng) for _ in range(min(1000, n - chunk))], 'random')
         t1 = time.time()
-        part2(ctx, env)
+        part2(ctx, env, history=(extra or {}).get('history') if isinstance(extra, dict) else None)
         ctx.extra['part_seconds'] = {'tie+oracle': round(t1 - t0, 1), 'oracle-only (m2m, 1:1, prefetch)': round(time.time() - t1, 1)}
     finally:
         env.close()
@@ -614,4 +638,4 @@ def replay(ctx, data):
     inp = data.get('input') if isinstance(data, dict) else None
     if not inp and isinstance(data, dict) and data.get('divergences'):
         inp = data['divergences'][0].get('input')
-    run(ctx, extra=inp if isinstance(inp, dict) and 'steps' in inp else None)
+    run(ctx, extra=inp if isinstance(inp, dict) and ('steps' in inp or 'history' in inp) else None)
